@@ -310,3 +310,23 @@ package dragonboat
 //@ func (s *snapshotter) processOrphans [C16]
 //@ noframe
 //@ nobounds
+
+// ---------------------------------------------------------------- committing a snapshot (C16)
+// protocol order from the property: publish the directory (flag file, rename), then record the
+// snapshot in the log store, and only then remove the flag file
+//@ func (s *snapshotter) getCustomEnv [C16]
+//@ trusted pure construction
+//@ func (s *snapshotter) saveSnapshot [C16]
+//@ noframe
+//@ nobounds
+//@ requires server.gFinalized && !server.gFlagRemoved
+//@ modifies raftio.gSnapRecorded
+//@ ensures result == nil ==> raftio.gSnapRecorded
+//@ func (s *snapshotter) Commit [C16]
+//@ noframe
+//@ nobounds
+//@ requires !server.gFinalized && !server.gFlagRemoved && !raftio.gSnapRecorded
+//@ modifies server.gFinalized, server.gFlagRemoved, raftio.gSnapRecorded, raftio.gDataMutated, fileutil.gFlagDir
+//@ ensures result == nil ==> server.gFinalized && server.gFlagRemoved
+//@ ensures result == nil && req.Type != rsm.Exported ==> raftio.gSnapRecorded
+//@ ensures server.gFlagRemoved ==> server.gFinalized && (req.Type == rsm.Exported || raftio.gSnapRecorded)
